@@ -17,7 +17,12 @@ ASSUMPTIONS = ["Python dict is the reference map", "white-box invariants read th
 
 
 def prepare(tier):
-    return {"ex_vm": build.executor("asan", "ex_vm")}
+    return {"ex_vm": build.executor("asan", "ex_vm"), "fz_map": build.executor("fuzz", "fz_map", extra_ldflags=["-fsanitize=fuzzer"])}
+
+
+# coverage-guided companion (libFuzzer, ASan): bytes -> op list over a Table<Int,Int> and a Tree<Int,Int> in lock step
+# against a naive association array, keys from a collision family (harness/fz_map.c)
+FUZZ = [{"target": "fz_map", "runs": {"quick": 8000, "thorough": 3000000}, "max_len": 200}]
 
 
 def strategy(tier):
